@@ -45,6 +45,9 @@ pub enum Edit {
     SpareWrite(u16),
     /// Read again into the owned buffer; the kernel delivers a fraction of the spare.
     ReRead(u16),
+    /// Read again through a wrapper that takes the address from the generic
+    /// buffer interface: `read(buf.limit(n))` (via 0) or `read_n(buf, 1)` (via 1).
+    ReReadVia { frac: u16, limit: u16, via: u8 },
 }
 
 #[derive(Clone, Debug, Serialize, Deserialize)]
@@ -175,6 +178,7 @@ fn edit() -> impl Strategy<Value = Edit> {
         3 => (0u16..700, any::<bool>()).prop_map(|(len, exact_fill)| Edit::Extend { len, exact_fill }),
         2 => any::<u16>().prop_map(Edit::SpareWrite),
         2 => any::<u16>().prop_map(Edit::ReRead),
+        2 => (any::<u16>(), any::<u16>(), 0u8..2).prop_map(|(frac, limit, via)| Edit::ReReadVia { frac, limit, via }),
     ]
 }
 
@@ -430,6 +434,55 @@ fn run_case(case: &Case, ctx: &mut Ctx) {
                     shadow[len + j] = data_byte(300 + k, j);
                 }
                 len += n;
+            }
+            Edit::ReReadVia { frac, limit, via } => {
+                let spare = buf_size - len;
+                if spare == 0 {
+                    continue;
+                }
+                // At least one byte, so that read_n(.., 1) needs one request.
+                script.frac = *frac | 0x8000;
+                script.seed = 500 + k;
+                let before = script.done.len();
+                let lim = 1 + (*limit as usize) % spare;
+                let r: Result<std::io::Result<ReadBuf>, String> = if *via == 0 {
+                    classes.push("reread-limited");
+                    drive(&mut world, { let _s = track::scope(track::TAG_A10); afd.read(a10::io::BufMut::limit(buf, lim)) }).map(|r| r.map(a10::io::LimitedBuf::into_inner))
+                } else {
+                    classes.push("reread-read_n");
+                    drive(&mut world, { let _s = track::scope(track::TAG_A10); afd.read_n(buf, 1) })
+                };
+                match r {
+                    Ok(Ok(b)) => {
+                        buf = b;
+                        let new: Vec<(usize, Vec<u8>, usize)> = script.done[before..].to_vec();
+                        for (which, data, addr) in new {
+                            if which != usize::MAX {
+                                fail(ctx, "reread-selected-new-buffer", format!("{what}: reading into an owned ReadBuf let the kernel select another buffer"));
+                            } else if addr != slot_addr + len {
+                                fail(ctx, "reread-address", format!("{what}: the read targets {addr:#x}, expected the spare part {:#x} of the buffer's slot", slot_addr + len));
+                            }
+                            if *via == 0 && data.len() > lim {
+                                fail(ctx, "reread-limit", format!("{what}: {} bytes were read into a buffer limited to {lim}", data.len()));
+                            }
+                            if shadow.len() < len + data.len() {
+                                shadow.resize(len + data.len(), 0);
+                            }
+                            shadow[len..len + data.len()].copy_from_slice(&data);
+                            len += data.len();
+                        }
+                    }
+                    Ok(Err(e)) => {
+                        ctx.infra(format!("re-read failed: {e}"));
+                        sim::sim().enter_hook = None;
+                        return;
+                    }
+                    Err(e) => {
+                        fail(ctx, "panic", e);
+                        sim::sim().enter_hook = None;
+                        return;
+                    }
+                }
             }
             Edit::ReRead(f) => {
                 script.frac = *f;
